@@ -185,3 +185,80 @@ Example conn_instance :
     [ {| lines := [[65; 10]]; pend := [66; 67] |}; {| lines := [[66; 67; 68; 10]; [69; 10]]; pend := [] |} ] /\
   snd (crun 2 [[65]; [66; 67; 68]; [69]] o) = 2.
 Proof. vm_compute. repeat split; reflexivity. Qed.
+
+(* ---------- the gap is bounded by the faults: a message that is not written costs at least one scheduled fault ---------- *)
+Lemma csend_one_le : forall fuel i mr m o cs cs' e o',
+  csend_one fuel i mr m o cs = (cs', e, o') -> (length o' <= length o)%nat.
+Proof.
+  induction fuel as [|f IH]; intros i mr m o cs cs' e o' H; destruct o as [|[|k bp d] o0]; cbn [csend_one] in H;
+    try (injection H as _ _ <-; cbn [length]; lia).
+  - destruct (mr <=? i); injection H as _ _ <-; cbn [length]; lia.
+  - destruct (mr <=? i); [injection H as _ _ <-; cbn [length]; lia|].
+    destruct (csend_one f (i + 1) mr m o0 _) as [[c1 e1] o2] eqn:E. injection H as _ _ <-.
+    pose proof (IH _ _ _ _ _ _ _ _ E). cbn [length]. lia.
+Qed.
+
+(* an attempt that failed has consumed its fault *)
+Lemma csend_one_err_lt : forall fuel i mr m k bp d o0 cs cs' e o',
+  csend_one fuel i mr m (AErr k bp d :: o0) cs = (cs', e, o') -> (length o' <= length o0)%nat.
+Proof.
+  intros fuel i mr m k bp d o0 cs cs' e o' H. destruct fuel as [|f]; cbn [csend_one] in H.
+  - destruct (mr <=? i); injection H as _ _ <-; lia.
+  - destruct (mr <=? i); [injection H as _ _ <-; lia|].
+    destruct (csend_one f (i + 1) mr m o0 _) as [[c1 e1] o2] eqn:E. injection H as _ _ <-.
+    exact (csend_one_le _ _ _ _ _ _ _ _ _ E).
+Qed.
+
+Lemma csend_one_nonempty : forall fuel i mr m o cs cs' e o', csend_one fuel i mr m o cs = (cs', e, o') -> cs <> [] -> cs' <> [].
+Proof.
+  induction fuel as [|f IH]; intros i mr m o cs cs' e o' H Hne; destruct o as [|[|k bp d] o0]; cbn [csend_one] in H;
+    try (injection H as <- <- <-; destruct cs; [congruence|cbn [on_cur]; discriminate]).
+  - destruct (mr <=? i); injection H as <- <- <-; destruct (bp && d); try discriminate; destruct cs; try congruence; cbn [on_cur]; discriminate.
+  - destruct (mr <=? i).
+    + injection H as <- <- <-; destruct (bp && d); try discriminate; destruct cs; try congruence; cbn [on_cur]; discriminate.
+    + destruct (csend_one f (i + 1) mr m o0 _) as [[c1 e1] o2] eqn:E. injection H as <- <- <-.
+      eapply IH; [exact E|]. destruct (bp && d); [discriminate|]. destruct cs; [congruence|]. cbn [on_cur]. discriminate.
+Qed.
+
+Lemma csend_one_lines_grow : forall fuel i mr m o cs cs' e o', csend_one fuel i mr m o cs = (cs', e, o') -> cs <> [] ->
+  (length (all_lines cs) <= length (all_lines cs'))%nat.
+Proof.
+  induction fuel as [|f IH]; intros i mr m o cs cs' e o' H Hne; destruct o as [|[|k bp d] o0]; cbn [csend_one] in H;
+    try (injection H as <- <- <-; rewrite all_lines_line by assumption; rewrite app_length; lia).
+  - fold (after_err k bp d m cs) in H. destruct (mr <=? i); injection H as <- <- <-; unfold after_err; destruct (bp && d);
+      rewrite ?all_lines_fresh, all_lines_part; lia.
+  - fold (after_err k bp d m cs) in H. destruct (mr <=? i).
+    + injection H as <- <- <-; unfold after_err; destruct (bp && d); rewrite ?all_lines_fresh, all_lines_part; lia.
+    + destruct (csend_one f (i + 1) mr m o0 (after_err k bp d m cs)) as [[c1 e1] o2] eqn:E. injection H as <- <- <-.
+      assert (Hne' : after_err k bp d m cs <> []).
+      { unfold after_err. destruct (bp && d); [discriminate|]. destruct cs; [congruence|]. cbn [on_cur]. discriminate. }
+      pose proof (IH _ _ _ _ _ _ _ _ E Hne') as Hle.
+      assert (Ha : all_lines (after_err k bp d m cs) = all_lines cs).
+      { unfold after_err. destruct (bp && d); rewrite ?all_lines_fresh, all_lines_part; reflexivity. }
+      rewrite Ha in Hle. exact Hle.
+Qed.
+
+Theorem conn_gap_bound mr : forall ms o cs, cs <> [] ->
+  (length ms + length (all_lines cs) <= length (all_lines (fst (csend_all mr ms o cs))) + length o)%nat.
+Proof.
+  induction ms as [|m ms IH]; intros o cs Hne; cbn [csend_all]; [cbn [fst length]; lia|].
+  destruct (csend_one (S (Z.to_nat (Z.max 0 mr))) 0 mr m o cs) as [[cs1 e] o'] eqn:E.
+  pose proof (csend_one_le _ _ _ _ _ _ _ _ _ E) as Hle.
+  pose proof (csend_one_nonempty _ _ _ _ _ _ _ _ _ E Hne) as Hne1.
+  pose proof (csend_one_lines_grow _ _ _ _ _ _ _ _ _ E Hne) as Hgrow.
+  specialize (IH o' cs1 Hne1). destruct (csend_all mr ms o' cs1) as [cs2 e2]. cbn [fst] in *. cbn [length].
+  destruct (Nat.eq_dec (length (all_lines cs1)) (length (all_lines cs))) as [Heq|Hneq]; [|lia].
+  (* nothing was written for m: then a fault was consumed *)
+  assert (Hcons : (length o' < length o)%nat).
+  { destruct o as [|[|k bp d] o0].
+    - cbn [csend_one] in E. injection E as <- _ _. rewrite all_lines_line in Heq by assumption. rewrite app_length in Heq. cbn in Heq. lia.
+    - cbn [csend_one] in E. injection E as <- _ _. rewrite all_lines_line in Heq by assumption. rewrite app_length in Heq. cbn in Heq. lia.
+    - pose proof (csend_one_err_lt _ _ _ _ _ _ _ _ _ _ _ _ E). cbn [length]. lia. }
+  lia.
+Qed.
+
+Theorem crun_gap_bound mr ms o : (length ms <= length (all_lines (fst (crun mr ms o))) + length o)%nat.
+Proof.
+  unfold crun. pose proof (conn_gap_bound mr ms o [fresh]) as H.
+  cbn [all_lines rev app map concat lines fresh length] in H. rewrite Nat.add_0_r in H. apply H. discriminate.
+Qed.
